@@ -1044,3 +1044,133 @@ def c10_cases(rng, n):
         it.meta = {'gen': 'c10', 'site': site, 'expect': exp, 'expr': tt_text(tt)}
         out.append(it)
     return out
+
+
+# ---------------------------------------------------------------------------------------------
+# C05: every (ordered) combination of member-instruction forms on one member, under a type that
+# requests all 12 flavours for two counterparts
+# ---------------------------------------------------------------------------------------------
+def c05_forms():
+    forms = []
+    for nm in MEMBER_MAP_NAMES:
+        for ded in (None, 'A', 'B'):
+            forms.append((nm, ded))
+    for nm in GHOSTS:
+        for ded in (None, 'A', 'B'):
+            forms.append((nm, ded))
+    return forms
+
+
+def c05_trait_attrs():
+    out = []
+    for cp in ('A', 'B'):
+        out += [trait_attr('map', cp), trait_attr('into_existing', cp), trait_attr('try_map', cp, '', 'Er'), trait_attr('try_into_existing', cp, '', 'Er')]
+    return out
+
+
+def c05_attr(form, k):
+    nm, ded = form
+    if nm in GHOSTS:
+        return Attr(nm, '{ g%d() }' % k, o2o=(nm != 'ghost'), ded=ded)
+    return Attr(nm, 'e%d(~)' % k, ded=ded)
+
+
+def c05_item(forms, shape='named'):
+    named = shape == 'named'
+    fa = [c05_attr(f, i + 1) for i, f in enumerate(forms)]
+    fields = [Field('a' if named else None, 'i32', fa), Field('b' if named else None, 'i16', [])]
+    return Item('struct', 'S', shape, '', c05_trait_attrs(), fields, {'gen': 'c05', 'forms': forms, 'shape': shape})
+
+
+def c05_variant_item(forms):
+    fa = [c05_attr(f, i + 1) for i, f in enumerate(forms)]
+    attrs = []
+    for cp in ('A', 'B'):
+        attrs += [trait_attr('map', cp), trait_attr('try_map', cp, '', 'Er')]
+    v = Variant('V', 'named', [Field('x', 'i32', fa), Field('y', 'i16')])
+    return Item('enum', 'E', 'named', '', attrs, [v, Variant('U')], {'gen': 'c05v', 'forms': forms, 'shape': 'variant'})
+
+
+# ---------------------------------------------------------------------------------------------
+# C06: two or three counterparts, every instruction kind in default / dedicated-to-each form
+# ---------------------------------------------------------------------------------------------
+def c06_cases(rng, n):
+    out = []
+    for i in range(n):
+        cps = rng.sample(['A', 'B', 'C', 'x::D', 'G<u8>'], rng.choice([2, 2, 3]))
+        def ded():
+            r = rng.random()
+            return None if r < 0.35 else rng.choice(cps)
+        if rng.random() < 0.7:
+            named = rng.random() < 0.7
+            kinds = BASIC + [try_name(b) for b in BASIC] + ['map', 'into', 'from', 'into_existing', 'try_map']
+            attrs = []
+            for cp in cps:
+                taken = set()
+                for nm in rng.sample(kinds, rng.choice([1, 2, 3])):
+                    ks = set(kinds_of(nm))
+                    if ks & taken:
+                        continue
+                    taken |= ks
+                    attrs.append(trait_attr(nm, cp, '' if named else rng.choice(['', ' as {}']), 'Er', rand_params(rng, nm)))
+            for _ in range(rng.choice([0, 1, 2])):
+                attrs.append(Attr(rng.choice(['ghosts', 'ghosts_owned', 'ghosts_ref']), rng.choice(['gx: { 1 }', 'base@gz: { 2 }', 'gy: { @.t }']), ded=ded()))
+            for _ in range(rng.choice([1, 1, 2, 3])):
+                attrs.append(Attr('child_parents', rng.choice(['base: Base', 'base: BaseModel', 'base: Base as ()', 'base: Base, base.inner: Inner', 'p: P']), ded=ded()))
+            for _ in range(rng.choice([0, 0, 1, 2])):
+                attrs.append(Attr('where_clause', rng.choice(['T: Clone', 'T: Copy, U: Into<T>']), ded=ded()))
+            rng.shuffle(attrs)
+            fields = []
+            for j in range(rng.randrange(1, 6)):
+                fa = []
+                for _ in range(rng.choice([0, 1, 1, 2, 3])):
+                    r = rng.random()
+                    m = ('n%d' % rng.randrange(4)) if named or rng.random() < 0.5 else str(rng.randrange(4))
+                    if r < 0.4:
+                        fa.append(Attr(rng.choice(MEMBER_MAP_NAMES), rng.choice([m, '%s, ~.c()' % m, '~ + %d' % j]), ded=ded()))
+                    elif r < 0.55:
+                        nm = rng.choice(GHOSTS)
+                        fa.append(Attr(nm, '{ %d }' % j, o2o=(nm != 'ghost'), ded=ded()))
+                    elif r < 0.8:
+                        fa.append(Attr('child', rng.choice(['base', 'base.inner', 'p']), ded=ded()))
+                    elif r < 0.9:
+                        fa.append(Attr('parent', rng.choice([None, 'x, y', '[map(z)] x']) if False else rng.choice(['x, y', '[map(z)] x']), ded=ded()))
+                    else:
+                        fa.append(Attr('as_type', rng.choice(['i64', m + ', u8']), ded=ded()))
+                fields.append(Field(('a%d' % j) if named else None, rng.choice(['i32', 'P']), fa))
+            out.append(Item('struct', 'S', 'named' if named else 'tuple', rng.choice(['', '<T>', '<T, U>']), attrs, fields, {'gen': 'c06_struct'}))
+        else:
+            attrs = []
+            for cp in cps:
+                for nm in rng.sample(['map', 'from', 'into', 'owned_into', 'from_ref', 'try_map', 'try_from'], rng.choice([1, 2])):
+                    if not any(set(kinds_of(nm)) & set(kinds_of(a.name)) and a.cp == cp for a in attrs):
+                        attrs.append(trait_attr(nm, cp, '', 'Er', rand_params(rng, nm, enum=True)))
+            for _ in range(rng.choice([0, 1, 2])):
+                attrs.append(Attr(rng.choice(['ghosts', 'ghosts_owned']), rng.choice(['Gx: { E::V0 }', 'Gy(a): { mk(a) }']), ded=ded()))
+            for _ in range(rng.choice([0, 0, 1])):
+                attrs.append(Attr('where_clause', 'T: Clone', ded=ded()))
+            rng.shuffle(attrs)
+            vs = []
+            for j in range(rng.randrange(1, 4)):
+                va = []
+                for _ in range(rng.choice([0, 1, 2, 3])):
+                    r = rng.random()
+                    if r < 0.35:
+                        va.append(Attr(rng.choice(['map', 'from', 'into', 'owned_into']), rng.choice(['W%d' % j, 'W%d, { mk(~) }' % j]), ded=ded()))
+                    elif r < 0.5:
+                        va.append(Attr('type_hint', rng.choice(['as {}', 'as ()', 'as Unit']), ded=ded()))
+                    elif r < 0.65:
+                        va.append(Attr('literal', rng.choice(['1', '"x"']), ded=ded()))
+                    elif r < 0.75:
+                        va.append(Attr('pattern', rng.choice(['_', '3..=5']), ded=ded()))
+                    elif r < 0.9:
+                        va.append(Attr('ghost', rng.choice(['{ dflt() }', '']), ded=ded()))
+                    else:
+                        va.append(Attr('ghosts', 'gq: { 0 }', ded=ded()))
+                sh = rng.choice(['unit', 'tuple', 'named'])
+                fs = [] if sh == 'unit' else [Field('x%d' % q if sh == 'named' else None, 'i32',
+                                                    [Attr(rng.choice(MEMBER_MAP_NAMES), rng.choice(['k', 'k, ~ + 1', '1']), ded=ded())] if rng.random() < 0.6 else [])
+                                              for q in range(rng.randrange(1, 3))]
+                vs.append(Variant('V%d' % j, sh, fs, va))
+            out.append(Item('enum', 'E', 'named', rng.choice(['', '<T>']), attrs, vs, {'gen': 'c06_enum'}))
+    return out
